@@ -6,6 +6,7 @@ import (
 	"io"
 	"math/big"
 	"math/rand"
+	"reflect"
 	"regexp"
 	"sort"
 	"strings"
@@ -1229,7 +1230,239 @@ func c14LiteralConstants(r *fw.Rec) {
 // (the printer panics; the client recovers and goes on building). After the
 // function was completed its print, and the print of any other module, must be
 // what it is without the failed attempt.
+// heldLocks reports the mutexes of the module and its functions that are locked
+// (read by reflection from the state word of sync.Mutex). At a quiescent point -
+// no printer running - none may be held.
+func heldLocks(m *ir.Module) []string {
+	var out []string
+	var state func(v reflect.Value) (int64, bool)
+	state = func(v reflect.Value) (int64, bool) {
+		if v.Kind() != reflect.Struct {
+			return 0, false
+		}
+		for i := 0; i < v.NumField(); i++ {
+			f := v.Field(i)
+			if v.Type().Field(i).Name == "state" && (f.Kind() == reflect.Int32 || f.Kind() == reflect.Int64) {
+				return f.Int(), true
+			}
+			if f.Kind() == reflect.Struct {
+				if s, ok := state(f); ok {
+					return s, true
+				}
+			}
+		}
+		return 0, false
+	}
+	check := func(owner string, obj interface{}) {
+		v := reflect.ValueOf(obj).Elem()
+		for i := 0; i < v.NumField(); i++ {
+			f := v.Field(i)
+			if f.Kind() == reflect.Ptr && !f.IsNil() && f.Type().Elem().String() == "sync.Mutex" {
+				f = f.Elem()
+			}
+			if f.Kind() == reflect.Struct && (f.Type().String() == "sync.Mutex" || f.Type().String() == "sync.RWMutex") {
+				if s, ok := state(f); ok && s != 0 {
+					out = append(out, fmt.Sprintf("%s.%s", owner, v.Type().Field(i).Name))
+				}
+			}
+		}
+	}
+	check("Module", m)
+	for _, f := range m.Funcs {
+		check("Func "+f.Ident(), f)
+	}
+	return out
+}
+
+// c14FailedPrintInNumbering: the print fails while the function is being
+// numbered (a placeholder phi without incoming values yet, a call whose callee
+// is not a function pointer yet); the caller recovers, completes the IR and
+// prints again. No lock may be left held by the failed attempt, and the
+// completed module prints like one that never saw it.
+func c14FailedPrintInNumbering(r *fw.Rec) {
+	type built struct {
+		m        *ir.Module
+		complete func()
+	}
+	variants := map[string]func() built{
+		"placeholder-phi": func() built {
+			m := ir.NewModule()
+			f := m.NewFunc("f", types.I32, ir.NewParam("x", types.I32))
+			entry := f.NewBlock("entry")
+			loop := f.NewBlock("")
+			entry.NewBr(loop)
+			phi := &ir.InstPhi{}
+			loop.Insts = append(loop.Insts, phi)
+			next := &ir.InstAdd{X: phi, Y: constant.NewInt(types.I32, 1)}
+			cmp := &ir.InstICmp{Pred: enum.IPredSLT, X: next, Y: f.Params[0]}
+			loop.Insts = append(loop.Insts, next, cmp)
+			done := f.NewBlock("done")
+			loop.Term = &ir.TermCondBr{Cond: cmp, TargetTrue: loop, TargetFalse: done}
+			done.NewRet(next)
+			return built{m, func() {
+				phi.Incs = []*ir.Incoming{ir.NewIncoming(constant.NewInt(types.I32, 0), entry), ir.NewIncoming(next, loop)}
+			}}
+		},
+		"call-with-callee-to-be-filled-in": func() built {
+			m := ir.NewModule()
+			g := m.NewFunc("g", types.I32)
+			g.NewBlock("").NewRet(constant.NewInt(types.I32, 3))
+			f := m.NewFunc("f", types.I32)
+			b := f.NewBlock("")
+			call := &ir.InstCall{Callee: constant.NewInt(types.I32, 0)}
+			b.Insts = append(b.Insts, call)
+			sum := &ir.InstAdd{X: call, Y: call}
+			b.Insts = append(b.Insts, sum)
+			b.NewRet(sum)
+			return built{m, func() { call.Callee = g }}
+		},
+	}
+	for _, name := range fw.SortedKeys(variants) {
+		mk := variants[name]
+		refB := mk()
+		refB.complete()
+		ref, pp := printGuard(refB.m)
+		if pp != "" {
+			r.Inconclusive("reference module cannot be printed: " + name)
+			continue
+		}
+		for _, observer := range []string{"Module.String", "Func.LLString", "Func.AssignIDs"} {
+			r.Eval(1)
+			b := mk()
+			failed, _, _ := fw.Guard(func() {
+				switch observer {
+				case "Module.String":
+					_ = b.m.String()
+				case "Func.LLString":
+					_ = b.m.Funcs[len(b.m.Funcs)-1].LLString()
+				default:
+					_ = b.m.Funcs[len(b.m.Funcs)-1].AssignIDs()
+				}
+			})
+			key := "failed-print-in-numbering/" + name + "/" + observer
+			if held := heldLocks(b.m); len(held) > 0 {
+				r.Violate(fw.Violation{Key: key + "/lock-left-held", What: fmt.Sprintf("after %s failed (panicked=%v) on the incomplete module and the caller recovered, these locks are still held: %s; the next print would block for ever", observer, failed, strings.Join(held, ", "))})
+				continue
+			}
+			b.complete()
+			got, pp2 := printGuard(b.m)
+			if pp2 != "" {
+				r.Violate(fw.Violation{Key: key, What: "after a failed print (recovered) the completed module cannot be printed: " + firstLine(pp2)})
+				continue
+			}
+			if got != ref {
+				r.Violate(fw.Violation{Key: key, What: fmt.Sprintf("the module was printed once while incomplete (%s, panicked=%v) and completed afterwards: its print differs from the print of the same module built without that attempt: %s", observer, failed, firstDiffLines(ref, got)), Expected: ref, Observed: got})
+				continue
+			}
+			r.Nontrivial(key)
+			r.Tally("witness", fmt.Sprintf("holds:%s/panicked=%v", key, failed))
+		}
+	}
+}
+
+// c14QueryEditRewrite: Operands() is a query. The same edit history - replace
+// one entry of an operand-holding list in place, then rewrite a value through
+// the slots Operands() returns - must end in the same text whether or not
+// Operands() (and Succs()) had been called before the edit.
+func c14QueryEditRewrite(r *fw.Rec) {
+	type built struct {
+		f     *ir.Func
+		user  interface{ Operands() []*value.Value }
+		edit  func()
+		from  value.Value
+		to    value.Value
+		succs func()
+	}
+	mk := map[string]func() built{
+		"phi-last-incoming": func() built {
+			m := ir.NewModule()
+			f := m.NewFunc("f", types.I32, ir.NewParam("x", types.I32), ir.NewParam("y", types.I32))
+			a, b2, j := f.NewBlock("a"), f.NewBlock("b"), f.NewBlock("j")
+			a.NewCondBr(constant.True, b2, j)
+			b2.NewBr(j)
+			phi := j.NewPhi(ir.NewIncoming(f.Params[0], a), ir.NewIncoming(f.Params[0], b2))
+			j.NewRet(phi)
+			return built{f, phi, func() { phi.Incs[1] = ir.NewIncoming(f.Params[0], b2) }, f.Params[0], f.Params[1], nil}
+		},
+		"switch-last-case": func() built {
+			m := ir.NewModule()
+			f := m.NewFunc("f", types.Void, ir.NewParam("x", types.I32), ir.NewParam("y", types.I32))
+			e, t1, t2 := f.NewBlock("e"), f.NewBlock("t1"), f.NewBlock("t2")
+			t1.NewRet(nil)
+			t2.NewRet(nil)
+			sw := e.NewSwitch(f.Params[0], t1, ir.NewCase(constant.NewInt(types.I32, 1), t1), ir.NewCase(constant.NewInt(types.I32, 2), t2))
+			return built{f, sw, func() { sw.Cases[1] = ir.NewCase(constant.NewInt(types.I32, 2), t2) }, f.Params[0], f.Params[1], func() { _ = sw.Succs() }}
+		},
+		"call-last-bundle": func() built {
+			m := ir.NewModule()
+			g := m.NewFunc("g", types.Void)
+			f := m.NewFunc("f", types.Void, ir.NewParam("x", types.I32), ir.NewParam("y", types.I32))
+			e := f.NewBlock("e")
+			call := e.NewCall(g)
+			call.OperandBundles = []*ir.OperandBundle{ir.NewOperandBundle("one", f.Params[0]), ir.NewOperandBundle("two", f.Params[0], f.Params[0])}
+			e.NewRet(nil)
+			return built{f, call, func() { call.OperandBundles[1] = ir.NewOperandBundle("two", f.Params[0], f.Params[0]) }, f.Params[0], f.Params[1], nil}
+		},
+		"landingpad-last-clause": func() built {
+			m := ir.NewModule()
+			g := m.NewGlobalDef("ti", constant.NewInt(types.I8, 0))
+			h := m.NewGlobalDef("tj", constant.NewInt(types.I8, 1))
+			f := m.NewFunc("f", types.Void)
+			e := f.NewBlock("e")
+			lp := e.NewLandingPad(types.NewStruct(types.I8Ptr, types.I32), ir.NewClause(enum.ClauseTypeCatch, g), ir.NewClause(enum.ClauseTypeCatch, g))
+			_ = lp
+			e.NewRet(nil)
+			return built{f, lp, func() { lp.Clauses[1] = ir.NewClause(enum.ClauseTypeCatch, g) }, g, h, nil}
+		},
+	}
+	run := func(b built, query bool) (string, string) {
+		var out string
+		pan, msg, _ := fw.Guard(func() {
+			if query {
+				_ = b.user.Operands()
+				if b.succs != nil {
+					b.succs()
+				}
+				_ = b.f.LLString()
+			}
+			b.edit()
+			for _, slot := range b.user.Operands() {
+				if *slot == b.from {
+					*slot = b.to
+				}
+			}
+			out = b.f.LLString()
+		})
+		if pan {
+			return "", firstLine(msg)
+		}
+		return out, ""
+	}
+	for _, name := range fw.SortedKeys(mk) {
+		r.Eval(1)
+		ref, pm := run(mk[name](), false)
+		if pm != "" {
+			r.Inconclusive("query-edit-rewrite reference fails: " + name)
+			continue
+		}
+		got, pm2 := run(mk[name](), true)
+		key := "query-edit-rewrite/" + name
+		if pm2 != "" {
+			r.Violate(fw.Violation{Key: key, What: "the history fails only when Operands() was called before the edit: " + pm2})
+			continue
+		}
+		if got != ref {
+			r.Violate(fw.Violation{Key: key, What: "Operands() called before an in-place edit of the operand list changes what a later rewrite through Operands() does: " + firstDiffLines(ref, got), Expected: ref, Observed: got})
+			continue
+		}
+		r.Nontrivial(key)
+		r.Tally("witness", "holds:"+key)
+	}
+}
+
 func c14FailedPrint(r *fw.Rec) {
+	c14FailedPrintInNumbering(r)
+	c14QueryEditRewrite(r)
 	build := func(complete bool) (*ir.Module, *ir.Block, *ir.InstMul) {
 		m := ir.NewModule()
 		m.NewGlobalDef("g", constant.NewInt(types.I32, 1))
@@ -1273,6 +1506,10 @@ func c14FailedPrint(r *fw.Rec) {
 				_, _ = m.WriteTo(&sb)
 			}
 		})
+		if held := heldLocks(m); len(held) > 0 {
+			r.Violate(fw.Violation{Key: "failed-print/" + observer + "/lock-left-held", What: "after the failed print was recovered these locks are still held: " + strings.Join(held, ", ")})
+			continue
+		}
 		// another module is printed right after the failed attempt
 		gotOther, _ := printGuard(other())
 		last.NewRet(w)
